@@ -1,4 +1,4 @@
-From Tetl Require Import Lib.Base C08.Model C08.Spec C04.Model C04.ModelQ C04.Spec C04.SpecQ C04.PreDoc C04.ModelAlias.
+From Tetl Require Import Lib.Base C08.Model C08.Spec C04.Model C04.ModelQ C04.Spec C04.SpecQ C04.PreDoc C04.ModelAlias C04.ModelBuf C04.SpecBuf.
 Require Extraction.
 Require Import ExtrOcamlBasic.
 Extraction Language OCaml.
@@ -6,7 +6,7 @@ Extraction "C04_model.ml" wire_anchor
   mkstr mkview default_str ctor_ptr ctor_fill get_size contents terminator step run swap_m other_str replace_m replace_ptr_m replace_cstr_m replace5_m replace_it_m replace_it_fill_m returned_pos returned_count pred_of self_src append_range_cat_m ctor_range_m pre_doc append_self_m insert_self_m push_back_self_loop
   view_of str_find_m str_rfind_m str_find_first_of_m str_find_first_not_of_m str_find_last_of_m
   str_find_last_not_of_m str_rfind_default_m str_find_last_of_default_m str_find_last_not_of_default_m
-  str_compare_m str_compare5_m copy_m
+  str_compare_m str_compare5_m istr_copy_m copy_into_m view_copy_into_m s_copy_into
   search_m default_pos compare_call_m starts_with_call_m ends_with_call_m contains_call_m
   rel_str_str_m rel_str_cstr_m rel_cstr_str_m index_m front_m back_m empty_m full_m arr_view
   spec_step spec_step_fits spec_run spec_run_fits s_substr s_cstr s_replace spec_returned_pos spec_returned_count
